@@ -92,5 +92,9 @@ fn main() -> Result<()> {
         }
     }
 
+    // Make sure all buffered data reached the output file, otherwise
+    // a failing final write would be ignored when the writer is dropped
+    writer.flush().context("Failed to flush XYZ output file")?;
+
     Ok(())
 }
